@@ -294,11 +294,31 @@ async def _async_session(case: dict) -> dict:
     loop = asyncio.get_running_loop()
     proto = entry.buffered_protocol() if (case["buffered"] and entry.buffered) else entry.stream_protocol()
     backend: Any
-    if case["api"] == "client":
+    if case.get("over") == "asyncio-adapter":
+        # the real asyncio protocol + adapter under the endpoint, over the fake selector transport
+        from easynetwork.lowlevel.api_async.backend._asyncio.stream.socket import AsyncioTransportStreamSocketAdapter, StreamReaderBufferedProtocol
+
+        from ..fakeasyncio import FakeAsyncioTransport
+
+        backend = AsyncIOBackend()
+        aio_protocol = StreamReaderBufferedProtocol(loop=loop)
+        aio_transport = FakeAsyncioTransport(loop, aio_protocol, kernel_capacity=None, max_recv=case.get("max_recv"))
+        adapter = AsyncioTransportStreamSocketAdapter(backend, aio_transport, aio_protocol)
+        obj: Any = AsyncStreamEndpoint(adapter, proto, max_recv_size=case["max_recv_size"])
+
+        class _Feeder:
+            def feed(self, data: bytes) -> None:
+                aio_transport.feed(data)
+
+            def feed_eof(self) -> None:
+                aio_transport.feed_eof()
+
+        mem: Any = _Feeder()
+    elif case["api"] == "client":
         backend = VerifBackend()
         mem = _StaleAfterEofTransport(backend)
         backend.connect_transports.append(mem)
-        obj: Any = AsyncTCPNetworkClient(("localhost", 9000), proto, backend, max_recv_size=case["max_recv_size"])
+        obj = AsyncTCPNetworkClient(("localhost", 9000), proto, backend, max_recv_size=case["max_recv_size"])
         await obj.wait_connected()
     else:
         backend = AsyncIOBackend()
@@ -380,6 +400,17 @@ def run_async_case(case: dict) -> Outcome:
     return Outcome(nontrivial=_nontrivial(case, judge), classes=tuple(classes + _classes(case, judge)))
 
 
+@st.composite
+def st_adapter_case(draw: st.DrawFn, tier: str) -> dict:
+    case = draw(st_case(tier, asynchronous=True))
+    case["api"] = "endpoint"
+    case["over"] = "asyncio-adapter"
+    case["max_recv"] = draw(st.sampled_from([None, None, 1, 5]))
+    # bursts larger than max_recv_size waiting in the protocol's buffer exercise the partial-read path of receive_data()
+    case["gaps"] = [draw(st.sampled_from([0.0, 0.0, 0.0, 0.5])) for _ in case["gaps"]]
+    return case
+
+
 CHECK = Check(
     id="C03",
     level="exploration",
@@ -388,12 +419,13 @@ CHECK = Check(
         "split into arrival groups with virtual gaps x position of the peer's close (after any group, before any data, inside "
         "a frame) x history of up to 8 recv_packet / iter_received_packets calls with timeouts in {None, 0, 0.7, 3} x receive "
         "path (copying / buffered) x max_recv_size {1,2,3,8,1024,65536} x API (StreamEndpoint, TCPNetworkClient, "
-        "AsyncStreamEndpoint, AsyncTCPNetworkClient); the transport returns stale garbage if read again after it signalled "
+        "AsyncStreamEndpoint, AsyncTCPNetworkClient; layer async-adapter: AsyncStreamEndpoint over the real asyncio StreamReaderBufferedProtocol + adapter under a fake selector transport); the transport returns stale garbage if read again after it signalled "
         "EOF; non-trivial = >= 1 complete packet or a close inside a frame, and >= 2 calls after EOF; distinct = sha1(case)"
     ),
     layers=[
         Layer("sync", lambda tier: st_case(tier, asynchronous=False), run_sync_case, {"quick": 1200, "thorough": 6000}),
         Layer("async", lambda tier: st_case(tier, asynchronous=True), run_async_case, {"quick": 500, "thorough": 3000}),
+        Layer("async-adapter", st_adapter_case, run_async_case, {"quick": 500, "thorough": 3000}),
     ],
     assumptions=[
         "sync layer: socket.socket subclass with simulated data path, fake selector as scheduler, virtual perf_counter; async layer: in-memory transport on the real asyncio backend with a virtual clock",
